@@ -107,7 +107,27 @@ def check_state(rep, st, sels, stats, only=None):
                 cmp_.check(name, "whole-array", lambda e=e: (_ for _ in ()).throw(e), None, True, "the whole query array", {})
     finite = all(np.all(np.isfinite(v)) for v in full.values())
     if not finite:
-        raise MachineryError(f"state {st.sid} has non-finite outputs on the query rows: not usable for C18")
+        # a row that is finite when asked alone but not inside the whole array depends on the other rows: that is C18
+        explained = False
+        with params.quiet():
+            for name, (fn, _) in outs.items():
+                v = full.get(name)
+                if v is None or np.all(np.isfinite(v)):
+                    continue
+                for r in range(len(Q)):
+                    try:
+                        alone = np.asarray(fn(Q[r:r + 1].copy()))
+                    except Exception:
+                        continue
+                    if np.all(np.isfinite(alone)) and not np.all(np.isfinite(np.asarray(v)[r])):
+                        explained = True
+                        rep.violation(f"{st.sid}: {name} of query row {r} ({st.what[r]}) is {np.asarray(v)[r].tolist()} inside the whole query "
+                                      f"array but {alone[0].tolist()} when asked alone: the answer depends on the other rows",
+                                      {"state": st.sid, "Q": Q.tolist(), "row": r, "output": name}, tags=("batch-dependent", "non-finite", name))
+                        break
+        if not explained:
+            raise MachineryError(f"state {st.sid} has non-finite outputs on the query rows: not usable for C18")
+        return
     # ---- every selection enumerated by TLC ------------------------------------------------------------------
     for case in sels:
         sel0 = np.array(case["sel"], dtype=np.intp) - 1
